@@ -55,6 +55,40 @@ func init() {
 	parsedABI = a
 }
 
+// verifMuLock / verifMuUnlock replace the pending-set mutex in the scratch copy of watcher.go:
+// a one-slot channel per mutex, so that a blocked Lock is a durable wait for synctest.
+var (
+	muChans   = map[*sync.Mutex]chan struct{}{}
+	muChansMu sync.Mutex
+)
+
+func muChan(m *sync.Mutex) chan struct{} {
+	muChansMu.Lock()
+	defer muChansMu.Unlock()
+	c := muChans[m]
+	if c == nil {
+		c = make(chan struct{}, 1)
+		muChans[m] = c
+	}
+	return c
+}
+
+func verifMuLock(m *sync.Mutex) {
+	c := muChan(m)
+	select {
+	case c <- struct{}{}:
+	default:
+		if s := curSim; s != nil {
+			s.mu.Lock()
+			s.stats.Probe("lock-contention-on-pending-set")
+			s.mu.Unlock()
+		}
+		c <- struct{}{}
+	}
+}
+
+func verifMuUnlock(m *sync.Mutex) { <-muChan(m) }
+
 // the active simulation (one per process at a time); verifDialRPC is called by the patched connector
 var curSim *evmSim
 
@@ -90,6 +124,8 @@ type evmTx struct {
 	deliveredBlock *evmBlock // block named in that notification
 	handoffs       map[string]int
 	mutated        bool // orphaned / re-mined / status flipped at some point
+	failFirstHead  uint64
+	abandonLegit   bool
 }
 
 type evmBlock struct {
@@ -147,6 +183,7 @@ type evmSim struct {
 
 	maxHeadServed     uint64
 	mutexHeldUntil    time.Duration
+	raceLogs          []int
 	headServedInPhase uint64
 	reobsPhase        bool
 	aborting          bool
@@ -421,26 +458,22 @@ func (s *evmSim) pick(phaseOnly bool) *evmParked {
 		if phaseOnly && !p.phase {
 			continue
 		}
-		if p.kind == "blockByHash" && !p.phase && s.now() < s.mutexHeldUntil {
-			// a stalled receipt lookup keeps the header loop inside its critical section (until the
-			// caller's 5 s deadline); answering the log loop now would send it into sync.Mutex.Lock,
-			// which is not a durable wait for synctest (rule D5)
-			continue
-		}
 		cand = append(cand, p)
 	}
 	if len(cand) == 0 {
 		return nil
 	}
-	// rule D5: the header loop holds the pending-set mutex across its receipt lookups; those are
-	// served before anything else so that nobody is ever made to contend for that mutex
+	// The header loop holds the pending-set lock across its receipt lookups. The lock is a durable
+	// channel lock in this build (see verifMuLock), so either order is schedulable: in most epochs the
+	// receipts are served first, in the others whatever the seed picks - including letting the log
+	// loop run into the critical section.
 	var rc []*evmParked
 	for _, p := range cand {
 		if p.kind == "receipt" && !p.phase {
 			rc = append(rc, p)
 		}
 	}
-	if len(rc) > 0 && !phaseOnly {
+	if len(rc) > 0 && !phaseOnly && simkit.Hash64(s.prog.Seed, "d5", strconv.FormatUint(s.epoch, 10))%3 != 0 {
 		cand = rc
 	}
 	sort.Slice(cand, func(i, j int) bool {
@@ -473,8 +506,25 @@ func (s *evmSim) release(p *evmParked) {
 		code = fq[0]
 		s.faults[p.kind] = fq[1:]
 		s.stats.Fault([]string{"rpc-error:", "rpc-stall:"}[code] + p.kind)
-		if code == 1 && p.kind == "receipt" && !p.phase {
-			s.mutexHeldUntil = s.now() + 5*time.Second + 10*time.Millisecond
+		if p.kind == "receipt" && !p.phase {
+			// "abandoned only after the node has failed to confirm it for the whole abandonment window":
+			// remember when every lookup of a transaction failed from its first attempt until a head
+			// at least 60 blocks further on
+			for _, tx := range s.txs {
+				if tx.hash.Hex() == p.key {
+					if tx.failFirstHead == 0 {
+						tx.failFirstHead = s.maxHeadServed + 1
+					} else if s.maxHeadServed+1 >= tx.failFirstHead+60 {
+						tx.abandonLegit = true
+					}
+				}
+			}
+		}
+	} else if p.kind == "receipt" && !p.phase {
+		for _, tx := range s.txs {
+			if tx.hash.Hex() == p.key {
+				tx.failFirstHead = 0
+			}
 		}
 	}
 	s.mu.Unlock()
@@ -485,6 +535,7 @@ func (s *evmSim) pump(until time.Duration) {
 	guard := 0
 	for {
 		synctest.Wait()
+		s.fireRaceLog()
 		if p := s.pick(false); p != nil {
 			s.release(p)
 			guard++
@@ -505,6 +556,37 @@ func (s *evmSim) pump(until time.Duration) {
 		}
 		time.Sleep(st)
 	}
+}
+
+// fireRaceLog: an armed log is emitted at the instant the header loop sits inside its critical
+// section (a receipt lookup of the polling path is parked), so that the log loop can run into it.
+func (s *evmSim) fireRaceLog() {
+	s.mu.Lock()
+	if len(s.raceLogs) == 0 {
+		s.mu.Unlock()
+		return
+	}
+	inCS := false
+	for _, p := range s.parked {
+		if p.kind == "receipt" && !p.phase {
+			inCS = true
+		}
+	}
+	if !inCS {
+		s.mu.Unlock()
+		return
+	}
+	lv := s.raceLogs[0]
+	s.raceLogs = s.raceLogs[1:]
+	tx := s.addTx(0, lv, 7)
+	b := s.newBlock(uint64(len(s.chain)))
+	s.chain = append(s.chain, b)
+	b.txs = append(b.txs, tx)
+	tx.block = b
+	s.notify(tx, b, false)
+	s.stats.Fault("log-during-header-processing")
+	s.mu.Unlock()
+	synctest.Wait()
 }
 
 // ---------------------------------------------------------------------------------------------
@@ -606,6 +688,9 @@ func (h evmHarness) Exec(p *simkit.Program) *simkit.Result {
 	s := &evmSim{res: res, log: &simkit.Log{}, stats: simkit.NewStats(), prog: p, byHash: map[ethCommon2.Hash]*evmBlock{}, faults: map[string][]int{}, reqs: map[string]int{}}
 	s.useFinal = p.C("finalized", 0) == 1
 	curSim = s
+	muChansMu.Lock()
+	muChans = map[*sync.Mutex]chan struct{}{}
+	muChansMu.Unlock()
 	defer func() { curSim = nil }()
 	rand.Seed(int64(p.Seed)) // supervisor back-off jitter draws from the global source
 	finished := false
@@ -649,6 +734,7 @@ func (h evmHarness) Exec(p *simkit.Program) *simkit.Result {
 				break
 			}
 			s.runStep(st, obsvReqC)
+			synctest.Wait() // the log line below must not race with the goroutines the step woke up
 			s.mu.Lock()
 			s.log.Add("head=%d fin=%d inc=%d handoffs=%d seen=%d parked=%d polls=%d", s.head(), s.finalized, s.inc, len(s.handoffs), s.maxHeadServed, len(s.parked), s.reqs["blockByNumber"])
 			s.mu.Unlock()
@@ -776,6 +862,10 @@ func (s *evmSim) runStep(st simkit.Step, obsvReqC chan *gossipv1.ObservationRequ
 			s.faults[k] = append(s.faults[k], int(st.B)%2)
 		}
 		s.mu.Unlock()
+	case "racelog":
+		s.mu.Lock()
+		s.raceLogs = append(s.raceLogs, int(st.B)%64)
+		s.mu.Unlock()
 	case "subdrop":
 		s.mu.Lock()
 		if len(s.servers) > 0 {
@@ -887,6 +977,7 @@ func (s *evmSim) reobserve(st simkit.Step, obsvReqC chan *gossipv1.ObservationRe
 func (s *evmSim) settleAndCheck() {
 	s.mu.Lock()
 	s.faults = map[string][]int{}
+	s.raceLogs = nil
 	s.mu.Unlock()
 	// injected stalls (40 s), the callers' deadlines (15 s) and supervisor back-off must run out first
 	s.pump(s.now() + 70*time.Second)
@@ -960,6 +1051,8 @@ func (s *evmSim) settleAndCheck() {
 			n = tx.handoffs["poll/"+tx.block.hash.Hex()]
 		}
 		switch {
+		case good && stays && n == 0 && tx.abandonLegit:
+			s.stats.Probe("abandoned-after-failing-for-the-whole-window")
 		case good && stays && n == 0:
 			s.violate("final-message-not-forwarded", "log seq=%d (level %d) in block %d stayed in its block, the watcher saw head %d, but the message was never handed over (head jumped by %d in one poll)",
 				lg.sequence, lg.level, tx.block.number, s.maxHeadServed, jump)
@@ -984,7 +1077,7 @@ func (evmHarness) Gen(seed uint64, prop, tier string) *simkit.Program {
 	level := func() int64 { return int64(r.Pick(4, 3, 2, 1)*3 + r.Intn(3)) }
 	n := 4 + r.Intn(14)
 	for i := 0; i < n; i++ {
-		switch r.Pick(8, 6, 6, 3, 3, 3, 1) {
+		switch r.Pick(8, 6, 6, 3, 3, 3, 1, 3) {
 		case 0:
 			add("log", int64(r.Pick(8, 2, 2, 2, 2)), level(), int64(r.Intn(64)))
 		case 1:
@@ -1005,6 +1098,12 @@ func (evmHarness) Gen(seed uint64, prop, tier string) *simkit.Program {
 			add("fault", int64(r.Intn(5)), int64(r.Intn(2)), int64(r.Intn(3)))
 		case 6:
 			add("subdrop", 0, 0, 0)
+		case 7:
+			// a message whose confirmation empties the pending set, and a second one logged meanwhile
+			add("log", 0, level(), int64(r.Intn(64)))
+			add("racelog", 0, level(), 0)
+			add("head", int64(r.Range(8, 20)), 120, 0)
+			add("adv", int64(r.Range(2, 6))*p.Cfg["poll_ms"], 0, 0)
 		}
 	}
 	return p
